@@ -148,6 +148,7 @@ func (ia InvokedAction) ToMultiPartsA(dividers ...string) Action {
 		}
 
 		a := Action{rawValues: vals}
+		a.meta.Merge(ia.action.meta)
 		for _, divider := range dividers {
 			if runes := []rune(divider); len(runes) == 0 {
 				a.meta.Nospace.Add('*')
